@@ -50,7 +50,9 @@ RULE += ('  '
 BUDGET = {'quick': {'runs': 1600, 'wall': 300, 'chunk': 10},
           'thorough': {'runs': 90000, 'wall': 1800, 'chunk': 20}}
 ASSUMPTIONS = [
-    'pre-emption points are lock operations and raw file I/O',
+    'pre-emption points are lock operations and raw file I/O; 8 % of the '
+    'runs add every source line of the read-handle pool, 6 % every source '
+    'line of fsIndex; never inside a source line',
     'crash model: prefix of the issued low-level operations (renames and '
     'removals included), torn writes sampled',
 ]
